@@ -300,12 +300,14 @@ def run_sharded_(cases, tag, profile="debug", want_model=True, want_impl=True):
     sqv = os.path.join(TARGET, profile, "sqv")
     sqm = os.path.join(BUILD, "ocaml", "sqmodel")
     jobs = []
+    shard_ids = {}
     for i, s in enumerate(shards):
         cf = os.path.join(d, "c%d.txt" % i)
         with open(cf, "w") as f:
             f.write("\n".join(s) + "\n")
         if want_impl:
             jobs.append(("impl", [sqv, cf, os.path.join(d, "i%d.txt" % i), d], os.path.join(d, "i%d.txt" % i)))
+            shard_ids[os.path.join(d, "i%d.txt" % i)] = [c.split("\t")[0] for c in s if c and not c.startswith("%")]
         if want_model:
             jobs.append(("model", [sqm, cf, os.path.join(d, "m%d.txt" % i)], os.path.join(d, "m%d.txt" % i)))
 
@@ -330,6 +332,13 @@ def run_sharded_(cases, tag, profile="debug", want_model=True, want_impl=True):
                 errs.append("%s rc=%d %s" % (kind, rc, err))
             if os.path.exists(outp):
                 (impl if kind == "impl" else model).update(sqcmp.read_obs(outp))
+            if kind == "impl" and rc != 0:
+                # the harness process itself died (abort, stack overflow, ...): results are flushed case by case, so the first
+                # case of the shard without a result is the one it died in
+                for cid in shard_ids.get(outp, []):
+                    if cid not in impl:
+                        impl[cid] = ("crash", "the harness process ended (status %d) while running this case: %s" % (rc, err.strip()[-200:]))
+                        break
     shutil.rmtree(d, ignore_errors=True)
     return impl, model, errs
 
@@ -509,7 +518,7 @@ def run_tcp_case(parts, profile="debug"):
         raise last
 
     first = events[0][0] if events else 0
-    if first not in (3, 8):
+    if first not in (3, 8, 12):
         srv = listen()
     proc = subprocess.Popen([exe, "-t", "127.0.0.1:%d" % port] + args, stdout=subprocess.PIPE, stderr=subprocess.PIPE, env=cli_env(parts[2]))
     # drain stdout/stderr while the session runs: the program prints its legend at every connection, and a full pipe would
@@ -531,11 +540,11 @@ def run_tcp_case(parts, profile="debug"):
     outcome = "ok"
     try:
         for typ, data in events:
-            if typ in (3, 8):
+            if typ in (3, 8, 12):
                 if srv is not None:
                     srv.close()
                     srv = None
-                time.sleep(1.2 if typ == 3 else 162.0)   # the client's attempts are refused meanwhile (8: a long outage)
+                time.sleep({3: 1.2, 8: 162.0, 12: 6.5}[typ])   # the client's attempts are refused meanwhile (8: a long outage, 12: two attempts)
                 srv = listen()
                 t_ref = time.time()
                 continue
